@@ -1,19 +1,65 @@
 (* C24 — Committed data always satisfies declared constraints.  Property theorems only. *)
 From Coq Require Import NArith List Bool.
-From Dolt Require Import C23.Model C24.Model C24.Spec C24.Corr C24.Proofs.
+From Dolt Require Import C23.Model C23.Spec C24.Model C24.Spec C24.Corr C24.Proofs.
 Import ListNotations.
 Local Open Scope N_scope.
 
-Theorem C24_committed_consistent_partial :
-  forall U sched w,
-    valid U (w_head w) = true ->
-    (forall i, s_active (w_ss w i) = true -> valid U (s_work (w_ss w i)) = true) ->
-    valid U (w_head (snd (crun U sched w))) = true.
-Proof. exact committed_consistent_partial. Qed.
-Print Assumptions C24_committed_consistent_partial.
+Theorem C24_committed_consistent :
+  forall U (ex : N -> stmt -> table -> sobs * table) (enabled : N -> bool),
+    (forall i st t, enabled i = true -> Valid U t -> Valid U (snd (ex i st t))) ->
+    forall sched w,
+      (forall i st, In (i, st) sched -> enabled i = true) ->
+      Valid U (w_head w) ->
+      (forall i, s_active (w_ss w i) = true -> Valid U (s_work (w_ss w i)) /\ Valid U (s_snap (w_ss w i))) ->
+      Valid U (w_head (snd (crun U ex sched w))).
+Proof. exact committed_consistent. Qed.
+Print Assumptions C24_committed_consistent.
+
+Theorem C24_exec_c_enforces :
+  forall U i st t, Valid U t -> Valid U (snd (exec_c U i st t)).
+Proof. exact exec_c_enforces. Qed.
+Print Assumptions C24_exec_c_enforces.
+
+Theorem C24_validators_sound :
+  forall U b l r m,
+    (forall k, get U m k = overlay_row (get U b k) (get U l k) (get U r k)) ->
+    Valid U b -> Valid U l -> Valid U r ->
+    rowscan U b l r m = false -> fkscan U b m = false -> uniq_b U m = true ->
+    Valid U m.
+Proof. exact validators_sound. Qed.
+Print Assumptions C24_validators_sound.
+
+Theorem C24_uscan_nothing_unique :
+  forall U l m, Uniq U l -> uscan U U l m (entries_of U l) = false -> Uniq U m.
+Proof. exact uscan_nothing_unique. Qed.
+Print Assumptions C24_uscan_nothing_unique.
 
 Theorem C24_failed_commit_keeps_committed_state :
-  forall U h s w,
-    snd (commit_c U h s w) <> err_none -> fst (commit_c U h s w) = h.
+  forall U h s w, snd (commit_c U h s w) <> err_none -> fst (commit_c U h s w) = h.
 Proof. exact failed_commit_keeps_committed_state. Qed.
 Print Assumptions C24_failed_commit_keeps_committed_state.
+
+Theorem C24_merge_keeps_notnull :
+  forall (b l r : option row) x,
+    row_conflict_b b l r = false -> overlay_row b l r = Some x ->
+    (forall y, l = Some y -> notnull_ok y = true) -> (forall y, r = Some y -> notnull_ok y = true) ->
+    notnull_ok x = true.
+Proof. exact merge_keeps_notnull. Qed.
+Print Assumptions C24_merge_keeps_notnull.
+
+Theorem C24_violations_exact_partial :
+  forall U b l r m k,
+    (forall k, get U m k = overlay_row (get U b k) (get U l k) (get U r k)) ->
+    Valid U b -> Valid U l -> Valid U r ->
+    (In (vt_fk, k) (recorded U b l r m) <-> exists x, get U m k = Some x /\ fk_ok_row U m k x = false) /\
+    (In (vt_check, k) (recorded U b l r m) <-> is_parent k = false /\ exists x, get U m k = Some x /\ row_ok k x = false) /\
+    (In (vt_notnull, k) (recorded U b l r m) <-> is_parent k = true /\ exists x, get U m k = Some x /\ row_ok k x = false).
+Proof. exact violations_exact_partial. Qed.
+Print Assumptions C24_violations_exact_partial.
+
+Theorem C24_uniq_violations_exact_refuted :
+  let '(m, c, v) := branch_merge rf_U rf_base rf_left rf_right in
+  c = false /\ valid rf_U rf_left = true /\ valid rf_U rf_right = true /\ valid rf_U m = true
+  /\ existsb (fun p => fst p =? vt_unique) v = true.
+Proof. exact uniq_violations_exact_refuted. Qed.
+Print Assumptions C24_uniq_violations_exact_refuted.
